@@ -386,6 +386,8 @@ def add_kerning(model, rng, pairs=20, groups=True, divergent=0.0, partial=0.0, z
                 break
             continue
         v = 0 if rng.random() < zero else rng.choice([-1, 1]) * rng.randint(1, 120)
+        if v and rng.random() < 0.15:
+            v += 0.5  # rounding tie
         base.setdefault(a, {})[b] = v
         n += 1
     # exceptions: glyph-vs-group pairs that override a group pair
@@ -423,7 +425,7 @@ def add_kerning(model, rng, pairs=20, groups=True, divergent=0.0, partial=0.0, z
                     continue
                 if (a.startswith("public.") and a not in gr) or (b.startswith("public.") and b not in gr):
                     continue
-                vv = v if not mi else v + rng.randint(-40, 40)
+                vv = v if not mi else v + rng.randint(-40, 40) + (0.5 if rng.random() < 0.1 else 0)
                 if mi and rng.random() < zero:
                     vv = 0
                 kern.setdefault(a, {})[b] = vv
@@ -544,4 +546,76 @@ def summary_special(model, rng):
                 for c in layer["contours"]:
                     for p in c:
                         p[0] -= 400  # negative left side bearing
+    return model
+
+
+MARK_NAMES = ["acutecomb", "gravecomb", "dotbelowcomb", "cedillacomb", "ringcomb", "tildecomb", "macroncomb", "ogonekcomb"]
+LIG_NAMES = ["f_i", "f_f_l", "f_l", "T_h", "c_t"]
+ANCHOR_GROUPS = ["top", "bottom", "ogonek", "center", "topright"]
+
+
+def add_anchors(model, rng, n_groups=2, n_marks=3, n_ligs=1, mkmk=0.5, multi_mark=0.0, uncategorised=0.15, vary_amount=30, half=True, sparse_ok=True):
+    """Mark attachment data: base/mark/ligature anchors on every layer of the chosen glyphs (positions vary per
+    master), public.openTypeCategories for every glyph that takes part.  Roles: the glyphs named like combining marks
+    are marks, those named like ligatures are ligatures, single letters are bases."""
+    groups = rng.sample(ANCHOR_GROUPS, min(n_groups, len(ANCHOR_GROUPS)))
+    glyphs = [g for g in model["glyphs"] if g["export"] and g["name"] != ".notdef"]
+    marks = [g for g in glyphs if g["name"] in MARK_NAMES][:n_marks]
+    ligs = [g for g in glyphs if g["name"] in LIG_NAMES][:n_ligs]
+    bases = [g for g in glyphs if g not in marks and g not in ligs and g["name"] not in MARK_NAMES and g["name"] not in LIG_NAMES]
+    cats = {}
+    plan = {}  # glyph name -> [(anchor name, x, y)]
+    for g in bases:
+        if rng.random() < uncategorised:
+            continue  # no category, no anchors
+        cats[g["name"]] = "base"
+        names = [grp for grp in groups if rng.random() < 0.8] or [groups[0]]
+        plan[g["name"]] = [(n, rnum(rng, 50, 600), rnum(rng, -200, 800)) for n in names]
+    for i, g in enumerate(marks):
+        cats[g["name"]] = "mark"
+        own = [groups[i % len(groups)]]
+        if rng.random() < multi_mark and len(groups) > 1:
+            own.append(rng.choice([x for x in groups if x not in own]))
+        a = [("_" + n, rnum(rng, 0, 300), rnum(rng, -100, 700)) for n in own]
+        if rng.random() < mkmk:
+            a.append((own[0], rnum(rng, 0, 300), rnum(rng, 300, 900)))  # marks stack: mkmk
+        plan[g["name"]] = a
+    for g in ligs:
+        cats[g["name"]] = "ligature"
+        ncomp = g["name"].count("_") + 1
+        a = []
+        for grp in groups:
+            if rng.random() < 0.2:
+                continue
+            for c in range(1, ncomp + 1):
+                if rng.random() < 0.2 and c > 1:
+                    continue  # this component has no anchor of this group
+                a.append((f"{grp}_{c}", rnum(rng, 50, 300) + 300 * (c - 1), rnum(rng, -200, 800)))
+        plan[g["name"]] = a
+    # every group that a mark uses must exist on some base so that mark glyph takes part
+    for g in marks:
+        for (n, _x, _y) in plan[g["name"]]:
+            if n.startswith("_") and bases:
+                grp = n[1:]
+                if not any(a[0] == grp for b in bases for a in plan.get(b["name"], [])):
+                    b = next((b for b in bases if b["name"] in plan), None)
+                    if b is not None:
+                        plan[b["name"]].append((grp, rnum(rng, 50, 600), rnum(rng, -200, 800)))
+    default = model["masters"][0]["name"]
+    for g in glyphs:
+        a = plan.get(g["name"])
+        if not a:
+            continue
+        for mname, layer in g["layers"].items():
+            out = []
+            for (n, x, y) in a:
+                if mname == default:
+                    out.append({"name": n, "x": x, "y": y})
+                else:
+                    dx, dy = rng.randint(-vary_amount, vary_amount), rng.randint(-vary_amount, vary_amount)
+                    if half and rng.random() < 0.2:
+                        dx += 0.5
+                    out.append({"name": n, "x": x + dx, "y": y + dy})
+            layer["anchors"] = out
+    model["lib"]["public.openTypeCategories"] = cats
     return model
